@@ -199,3 +199,41 @@ def run(ctx):
     # R17-d ---------------------------------------------------------------------------------------
     import c07
     c07.new_line_table(ctx, "R17-d", only_gate=True)
+    hull_guards(ctx, "R17-e")
+
+
+def hull_guards(ctx, rid):
+    """R17-e: a file-lines test is made on the span of one node (or of one gap), never on the hull of several nodes"""
+    p, r = ctx.p, ctx.r
+    r.rule(rid, "the span handed to ParseSess::lookup_line_range for a file-lines test is never assembled (mk_sp / Span::to / with_lo / "
+                "with_hi / between) from endpoints taken from *elements of a slice of nodes* (first / last / index): such a hull "
+                "intersects the selection when only a comment or blank line between the nodes does, and every node is then rewritten")
+    LOOKUP = "::lookup_line_range"
+    COMBINE = ("utils::mk_sp", "Span::to", "Span::with_lo", "Span::with_hi", "Span::between", "Span::until", "Span::new")
+    ELEM = ("::first", "::last", "Index<I>>::index", "::get", "::split_first", "::split_last", "::first_mut", "::last_mut")
+    n = 0
+    for f in p.by_crate["rustfmt_nightly"]:
+        for c in f.calls():
+            if not c.name.endswith(LOOKUP) or len(c.args) < 2 or c.args[1][0] == "k":
+                continue
+            # only the lookups that feed a FileLines::intersects test
+            feeds = any(x.name == INTERSECTS for x in f.calls() if x.bb in f.reachable(c.bb))
+            if not feeds:
+                continue
+            n += 1
+            d = f.derived_from(c.args[1][1][0])
+            comb = [x for x in d["calls"] if any(short(x.name).endswith(s) or x.name.endswith(s) for s in COMBINE)]
+            elem = [x for x in d["calls"] if any(x.name.endswith(s) or (x.declared or "").endswith(s.lstrip(":")) for s in ELEM)
+                    and ("[" in x.name or "slice" in x.name or "Vec" in x.name or "Index" in (x.declared or ""))]
+            hull = bool(comb) and len(elem) >= 1
+            key = "file-lines test on a hull of nodes: %s" % short(f.root or f.id)
+            r.instance(rid, "file-lines span in %s" % short(f.id), "violation" if hull else "ok", c.loc(),
+                       "combinators=%s element accesses=%s" % ([short(x.name).rsplit("::", 1)[-1] for x in comb][:3],
+                                                                 [short(x.name).rsplit("::", 1)[-1] for x in elem][:3]))
+            if hull:
+                r.violation(rid, key,
+                            "the tested span is built with %s from endpoints of slice elements (%s): a selection that touches only "
+                            "the text between two nodes makes the whole group count as selected"
+                            % (sorted({short(x.name).rsplit("::", 1)[-1] for x in comb}), sorted({short(x.name).rsplit("::", 1)[-1] for x in elem})),
+                            [c.loc()])
+    r.floor(rid, n, 4, "file-lines span lookups")
